@@ -331,6 +331,15 @@ pub fn check_c14(gs: &GraphSpec, st: &mut Stats, out: &mut Vec<Violation>) {
             res.push(("toposort", false, o));
         }
         res.push(("map", false, g.map(|f| f.idx).collect()));
+        {
+            // the iterator returned by map(), consumed in two parts
+            let k = n / 2;
+            let mut it = g.map(|f| f.idx);
+            let mut first: Vec<usize> = it.by_ref().take(k).collect();
+            let rest: Vec<usize> = it.collect();
+            first.extend(rest);
+            res.push(("map(consumed in two parts)", false, first));
+        }
         res.push(("fold", false, g.fold(Vec::new(), |mut s, f| {
             s.push(f.idx);
             s
@@ -1313,8 +1322,17 @@ pub fn run(opts: &Opts) -> Option<(Stats, Vec<String>, String)> {
         p.max_access = 3;
         p.write_pct = *rng.pick(&[20, 50, 80]);
         p.path_cap = 200_000;
-        let fam = *rng.pick(&gen::FAMILIES);
-        let n = if rng.chance(1, 3) { rng.range(0, 8) } else { rng.range(0, max_n) };
+        let mut fam = *rng.pick(&gen::FAMILIES);
+        let mut n = if rng.chance(1, 3) { rng.range(0, 8) } else { rng.range(0, max_n) };
+        if i % 4000 == 77 {
+            // a few hundred functions: chains (rank > 255), isolated writers, sparse graphs
+            fam = *rng.pick(&[Family::Chain, Family::Isolated, Family::SparseEr, Family::OutTree, Family::FanIn]);
+            n = rng.range(260, 420);
+            p.hostile_calls = false;
+            p.types = 2;
+            p.max_access = 1;
+            st.count("graphs_with_hundreds_of_functions");
+        }
         let gs = gen::random_graph_of(&mut rng, fam, n, &p);
         st.max("max_functions", gs.n as u64);
         st.count(&format!("family.{fam:?}"));
